@@ -395,19 +395,19 @@ Definition proc_can_accept (nw : Z) (w : fw) (d : Z) : fw * bool :=
        | _, _ => (w, true)
        end.
 
-(** _accept_part + _on_received_new_part *)
-Definition accept (fuel : nat) (nw : Z) (w : fw) (d : Z) (it : item) : fw :=
-  let it1 := item_add_hist d it in
-  let k := d_kind (getd w d) in
-  (* Buffer: level first; Sink: counters, value, collected first *)
-  let w2 := match k with
-            | KBuffer =>
-              let w' := updd w d (t_accept_buffer nw it1) in
-              data w' L_LEVEL d [nw; d_level (getd w' d)]
-            | KSink => updd w d (t_accept_sink nw it1)
-            | KProcessor => updd w d (t_accept_proc nw it1)
-            | _ => updd w d (t_accept nw it1)
-            end in
+(** _accept_part + _on_received_new_part, in two pieces: taking the part in ([accept_first]: the slot, and for a buffer the
+    level with its record, for a sink the counters, value and collected list) and everything that follows ([accept_rest]) *)
+Definition accept_first (nw : Z) (k : kind) (w : fw) (d : Z) (it1 : item) : fw :=
+  match k with
+  | KBuffer =>
+    let w' := updd w d (t_accept_buffer nw it1) in
+    data w' L_LEVEL d [nw; d_level (getd w' d)]
+  | KSink => updd w d (t_accept_sink nw it1)
+  | KProcessor => updd w d (t_accept_proc nw it1)
+  | _ => updd w d (t_accept nw it1)
+  end.
+
+Definition accept_rest (fuel : nat) (nw : Z) (k : kind) (w2 : fw) (d : Z) (it1 : item) : fw :=
   let w3 := rec_part w2 L_RECEIVED d nw it1 in
   let w4 := run_cbops nw d true false (-1) (d_on_receive (getd w3 d)) w3 in
   if negb (okf w4) then w4 else
@@ -431,6 +431,11 @@ Definition accept (fuel : nat) (nw : Z) (w : fw) (d : Z) (it : item) : fw :=
       then sched_finish fuel nw w4 d else w4
     end
   end.
+
+Definition accept (fuel : nat) (nw : Z) (w : fw) (d : Z) (it : item) : fw :=
+  let it1 := item_add_hist d it in
+  let k := d_kind (getd w d) in
+  accept_rest fuel nw k (accept_first nw k w d it1) d it1.
 
 (** * give_part *)
 Fixpoint give (fuel : nat) (nw : Z) (w : fw) (d : Z) (it : item) : fw * bool :=
